@@ -330,7 +330,7 @@ REGISTRY.update({'C03': c03, 'C18': c18})
 # ---------------------------------------------------------------------------
 # Run histories: Evolver.tla / EvolverGen.tla / EvolverTrace.tla + runs engine
 
-def _select_histories(recs, limit, rng, want_fault=None, min_runs=1):
+def _select_histories(recs, limit, rng, want_fault=None, min_runs=1, focus_app=None):
     pool = []
     for r in recs:
         hist = r['hist']
@@ -346,7 +346,54 @@ def _select_histories(recs, limit, rng, want_fault=None, min_runs=1):
     rng.shuffle(pool)
     # prefer longer histories: they contain the shorter ones as prefixes
     pool.sort(key=lambda r: -len(r['hist']))
-    return pool[:limit]
+    if len(pool) <= limit:
+        return pool
+
+    # ... but spread the sample over the SHAPES of the upgrade paths: per app the jumps its runs make
+    # (fresh install at v: -1>v, direct upgrade 0>2, stepwise 0>1 1>2, ...), the drivers and the fault
+    # points, so that every kind of path the property quantifies over is replayed
+    def shape(r):
+        code, at, jumps = {}, {}, {}
+        ops = r['hist']
+        out = []
+        for i, op in enumerate(ops):
+            if op['op'] == 'deploy':
+                code[op['app']] = op['ver']
+            elif op['op'] == 'run':
+                failing = i + 1 < len(ops) and ops[i + 1]['op'] == 'fault'
+                for a in sorted(code):
+                    if code[a] != at.get(a, -1):
+                        jumps.setdefault(a, []).append((at.get(a, -1), code[a], failing))
+                        if not failing:
+                            at[a] = code[a]
+            elif op['op'] == 'fault':
+                out.append((op.get('app'), op.get('phase'), op.get('stmt')))
+        return (tuple((a, tuple(j)) for a, j in sorted(jumps.items())), tuple(out))
+    strata = {}
+    for r in pool:
+        strata.setdefault(shape(r), []).append(r)
+    keys = sorted(strata, key=repr)
+    rng.shuffle(keys)
+    if focus_app:
+        # the family under test differs in ONE app: go round its path shapes first
+        def focus(k):
+            return repr([j for a, j in k[0] if a == focus_app])
+        groups = {}
+        for k in keys:
+            groups.setdefault(focus(k), []).append(k)
+        order = []
+        gkeys = sorted(groups)
+        while any(groups[g] for g in gkeys):
+            for g in gkeys:
+                if groups[g]:
+                    order.append(groups[g].pop(0))
+        keys = order
+    chosen = []
+    while len(chosen) < limit and any(strata[k] for k in keys):
+        for k in keys:
+            if strata[k] and len(chosen) < limit:
+                chosen.append(strata[k].pop(0))
+    return chosen
 
 
 def _run_histories(report, tier, maxver, maxruns, limit, faults, want_fault=None,
@@ -359,7 +406,8 @@ def _run_histories(report, tier, maxver, maxruns, limit, faults, want_fault=None
     from .engines import runs
     rng = random.Random(seed() * 7907 + maxver * 31 + maxruns)
     gen = runs.generate_histories(report, maxver, maxruns, faults=faults)
-    chosen = _select_histories(gen, limit, rng, want_fault=want_fault)
+    chosen = _select_histories(gen, limit, rng, want_fault=want_fault,
+                               focus_app='a2' if a2_variant is not None else None)
     if extend:
         chosen = [extend(r) for r in chosen]
     histories = runs.make_histories(maxver, variant=variant, a2_variant=a2_variant)
@@ -445,7 +493,8 @@ def c04(tier, replay=None):
     nontrivial = set()
     all_chosen, ngen = 0, 0
     # second family: app a2's second evolution starts with RenameModel to a new table
-    for family, a2_variant, share in (('chain', None, 1.0), ('rename', 3, 0.5)):
+    # third family: app a2's first evolution deletes a column that its second evolution adds back
+    for family, a2_variant, share in (('chain', None, 1.0), ('rename', 3, 0.5), ('readd', 4, 0.5)):
         try:
             chosen, results, histories, oracles, n = _run_histories(
                 report, tier, maxver, maxruns, int(limit * share), faults=False, a2_variant=a2_variant,
@@ -467,7 +516,9 @@ def c04(tier, replay=None):
         'TLC explores Evolver.tla (2 apps, MaxVer=%d, <=%d runs, drivers api/cmd, no faults) and '
         'prints one history per reachable idle state (VIEW hides the history variable); %d of %d '
         'histories were replayed on synthetic projects (chain-family evolutions; a second family whose '
-        'evolution 2 of app a2 renames the model to a new table first), every run traced '
+        'evolution 2 of app a2 renames the model to a new table first; a third whose evolution 1 deletes a '
+        'column that evolution 2 adds back unchanged), rows in every table, the rows after every run compared '
+        'with the reference data-flow of the applied evolutions taken one at a time, every run traced '
         'and validated by EvolverTrace, and each completed run judged against the fresh-install '
         'oracle. Non-trivial = at least two runs; distinct = distinct (family, history).'
         % (maxver, maxruns, all_chosen, ngen))
@@ -496,6 +547,12 @@ def _c04_judge(report, tier, family, chosen, results, histories, oracles, nontri
             if rr.get('rows_lost'):
                 report.fail({'class': 'rows-not-preserved', 'driver': rr['drv']},
                             dict(detail, lost=rr['rows_lost'][:6]))
+            if rr.get('rows_diff'):
+                # whichever path was taken, the rows are what applying the evolutions one at a
+                # time makes of them
+                report.fail({'class': 'rows-differ-from-stepwise-reference', 'driver': rr['drv'], 'family': family,
+                             'kinds': sorted(set(d.get('kind') for d in rr['rows_diff']))},
+                            dict(detail, differences=rr['rows_diff'][:6]))
             if s['outcome'] != 'ok':
                 if s['error'] in ('CommandError',) and 'cannot resolve' in (s['error_msg'] or ''):
                     cls = 'upgrade-rejected'
@@ -1004,6 +1061,11 @@ def c08(tier, replay=None):
                 new_rows = post['evo'][len(pre['evo']):]
                 if post['evo'][:len(pre['evo'])] != pre['evo']:
                     report.fail({'class': 'earlier-rows-changed'}, detail)
+                if new_rows and pre['nver'] > 0 and post['nver'] <= pre['nver']:
+                    # the run that applies evolutions saves a version of its own for them
+                    report.fail({'class': 'rows-attached-to-an-earlier-runs-version'},
+                                dict(detail, new_rows=new_rows, versions_before=pre['nver'],
+                                     versions_after=post['nver']))
                 if new_rows and any(r[2] != post['nver'] for r in new_rows) and \
                         not (pre['nver'] == 0):
                     report.fail({'class': 'rows-not-attached-to-run-version'},
@@ -1061,9 +1123,14 @@ def c08(tier, replay=None):
     _trace_rejections(report, 'C08', chosen, results)
     nledger = _c08_ledger(report, tier, nontrivial)
     nsplit = _c08_interleaved(report, tier, nontrivial)
+    nunch = _c08_unchanged_signature(report, tier, nontrivial)
+    report.notes.append('%d scenarios of the unchanged-signature family (SQL-only evolutions) replayed' % nunch)
     report.coverage['distinct_nontrivial'] = len(nontrivial)
     report.coverage['exhaustive'] = len(chosen) == ngen
     report.coverage['rule'] = (
+        'Part 4: upgrades that apply evolutions while the stored signature stays what it was (SQLMutation-only '
+        'evolutions alone / next to model changes / next to another app, drivers evolve, migrate, API): every label '
+        'recorded once, its SQL run once, its rows attached to a version saved by that very run, the next run a no-op.  '
         'Part 3 (MigGraph.tla): %d upgrades whose tasks are split into several batches (an app\'s pending '
         'evolutions ordered around another app\'s evolutions or around migrations, incl. evolutions without '
         'SQL): every pending evolution\'s own statements run exactly once and it is recorded exactly once.  ' % nsplit +
@@ -1705,6 +1772,8 @@ CONSTRAINT Constraint
     # sampled, evaluated by TLC on exactly these projects
     for napps, count in ([(3, 40)] if tier == 'quick' else [(3, 400), (4, 200)]):
         cfgs = G.sample_configs(rng, napps, count)
+        if napps == 3:
+            cfgs = G.interleave_configs() + cfgs
         path = os.path.join(scratch_dir(), 'evograph-%d.json' % napps)
         with open(path, 'w') as fp:
             _json.dump(cfgs, fp)
@@ -1712,7 +1781,7 @@ CONSTRAINT Constraint
 SPECIFICATION Spec
 CONSTANTS
   NApps = %d
-  MaxPending = 2
+  MaxPending = 3
   FromFile = TRUE
   EmitRecords = TRUE
 CONSTRAINT Constraint
@@ -1742,7 +1811,7 @@ CONSTRAINT Constraint
         return {'napps': r['napps'], 'applied': list(r['applied']), 'pending': list(r['pending']),
                 'newm': list(r['newm']), 'after': [list(x) for x in r['after']],
                 'before': [list(x) for x in r['before']],
-                'eafter': [[x[0], list(x[1])] for x in r['eafter']]}
+                'eafter': [[x[0], list(x[1]), x[2] if len(x) > 2 else 1] for x in r['eafter']]}
 
     def one(r):
         try:
@@ -2070,7 +2139,7 @@ def c05(tier, replay=None):
     from .tlc import run_tlc, require_ok, write_cfg
     report = Report('C05', tier)
     recs = []
-    for edits, start in ([(2, 1), (2, 2), (2, 3), (2, 4)] if tier == 'quick' else [(3, 1), (3, 2), (3, 3), (3, 4)]):
+    for edits, start in ([(2, 1), (2, 2), (2, 3), (2, 4), (2, 5)] if tier == 'quick' else [(3, 1), (3, 2), (3, 3), (3, 4), (3, 5)]):
         cfg = write_cfg('MC_Hint_%d_%d.cfg' % (edits, start), '''
 SPECIFICATION Spec
 CONSTANTS
@@ -3179,6 +3248,119 @@ INVARIANT SoftOnlyLegacyInitial
 
 
 REGISTRY.update({'C10': c10})
+
+
+def _c08_unchanged_signature(report, tier, nontrivial):
+    """Runs that apply evolutions although the stored signature stays what it was: an evolution
+    made of SQLMutation statements only (alone, next to a model-changing evolution of the same app,
+    next to one of another app), through every driver.  Every pending label is recorded exactly
+    once, its SQL runs exactly once, the rows belong to a version saved by THAT run, and a
+    further run does nothing."""
+    from concurrent.futures import ThreadPoolExecutor
+    from .djproj import Project
+    base = ['from django.db import models', '', '',
+            'class Item(models.Model):', '    name = models.CharField(max_length=20)']
+    sql_evo = {'label': 'sql_only', 'mutations_src': [
+        "SQLMutation('name_idx', ['CREATE INDEX \"%s_item_name_x\" ON \"%s_item\" (\"name\");'], "
+        "update_func=lambda simulation: None)"]}
+    add_evo = {'label': 'add_qty', 'mutations_src': ["AddField('Item', 'qty', models.IntegerField, null=True)"]}
+    scenarios = []
+    for drv in ('cmd', 'api', 'migrate'):
+        for shape in ('sql-alone', 'sql-then-model', 'model-then-sql', 'sql-and-other-app'):
+            scenarios.append((drv, shape))
+    if tier == 'quick':
+        scenarios = scenarios[::2] + [('cmd', 'sql-and-other-app')]
+
+    def run_one(sc):
+        drv, shape = sc
+        apps = ['shop', 'blog'] if shape == 'sql-and-other-app' else ['shop']
+        p = Project(apps, tag='c08u')
+        out = {'scenario': sc, 'steps': []}
+        try:
+            for a in apps:
+                p.deploy(a, '\n'.join(base) + '\n', [])
+            r0 = p.run({'action': 'evolve_api', 'app_prefixes': apps})
+            if r0['outcome'] != 'ok':
+                out['setup_error'] = (r0.get('error') or {}).get('msg')
+                return out
+            p.run({'action': 'insert_rows', 'app_prefixes': apps})
+
+            def sql(a):
+                e = dict(sql_evo)
+                e['mutations_src'] = [e['mutations_src'][0] % (a, a)]
+                return e
+            plans = {'sql-alone': [([sql('shop')], False)],
+                     'sql-then-model': [([sql('shop')], False), ([sql('shop'), add_evo], True)],
+                     'model-then-sql': [([add_evo], True), ([add_evo, sql('shop')], True)],
+                     'sql-and-other-app': [([sql('shop')], False)]}[shape]
+            for evos, with_qty in plans:
+                src = '\n'.join(base + (['    qty = models.IntegerField(null=True)'] if with_qty else [])) + '\n'
+                p.deploy('shop', src, evos)
+                if shape == 'sql-and-other-app':
+                    p.deploy('blog', '\n'.join(base + ['    qty = models.IntegerField(null=True)']) + '\n', [add_evo])
+                before = p.run({'action': 'snapshot', 'app_prefixes': apps})['post']['default']['book']
+                for attempt in (1, 2):
+                    if drv == 'api':
+                        res = p.run({'action': 'evolve_api', 'app_prefixes': apps, 'only_if_required': True})
+                    elif drv == 'migrate':
+                        res = p.run({'action': 'command', 'name': 'migrate', 'app_prefixes': apps,
+                                     'options': {'interactive': False, 'verbosity': 0}})
+                    else:
+                        res = p.run({'action': 'command', 'name': 'evolve', 'app_prefixes': apps,
+                                     'options': {'execute': True, 'interactive': False, 'verbosity': 0}})
+                    book = res['post']['default']['book']
+                    out['steps'].append({
+                        'labels_deployed': [e['label'] for e in evos], 'attempt': attempt,
+                        'outcome': res['outcome'], 'error': (res.get('error') or {}).get('msg'),
+                        'rows_before': before['evolutions'], 'rows_after': book['evolutions'],
+                        'versions_before': len(before['versions']), 'versions_after': len(book['versions']),
+                        'statements': [e['sql'][:90] for e in res['events'] if e['ev'] == 'stmt'],
+                        'announced': [(e.get('app'), tuple(e.get('labels') or [])) for e in res['events']
+                                      if e['ev'] == 'applying_evolution']})
+                    before = book
+            return out
+        finally:
+            p.destroy()
+    with ThreadPoolExecutor(12) as ex:
+        results = list(ex.map(run_one, scenarios))
+    for out in results:
+        drv, shape = out['scenario']
+        report.coverage['evaluations'] += 1
+        if out.get('setup_error'):
+            report.notes.append('C08 unchanged-signature family: setup failed: %s' % out['setup_error'])
+            continue
+        nontrivial.add('unchanged-signature:%s:%s' % (drv, shape))
+        for st in out['steps']:
+            report.coverage['traces_validated_against_impl'] += 1
+            detail = dict(st, driver=drv, shape=shape)
+            fp = {'family': 'unchanged-signature', 'driver': drv, 'shape': shape, 'attempt': st['attempt']}
+            if st['outcome'] != 'ok':
+                report.fail(dict(fp, **{'class': 'upgrade-failed'}), detail)
+                break
+            had = [tuple(r[:2]) for r in st['rows_before']]
+            have = [tuple(r[:2]) for r in st['rows_after']]
+            new = [r for r in st['rows_after'] if tuple(r[:2]) not in had]
+            if len(have) != len(set(have)):
+                report.fail(dict(fp, **{'class': 'label-recorded-twice'}), detail)
+            if st['attempt'] == 1:
+                want = set(('shop', l) for l in st['labels_deployed'])
+                if shape == 'sql-and-other-app':
+                    want.add(('blog', 'add_qty'))
+                if not want <= set(have):
+                    report.fail(dict(fp, **{'class': 'pending-evolution-not-recorded'}),
+                                dict(detail, missing=sorted(want - set(have))))
+                if new and st['versions_after'] <= st['versions_before']:
+                    report.fail(dict(fp, **{'class': 'rows-attached-to-an-earlier-runs-version'}), detail)
+                if new and any(r[2] <= st['versions_before'] for r in new):
+                    report.fail(dict(fp, **{'class': 'rows-attached-to-an-earlier-runs-version'}),
+                                dict(detail, new_rows=new))
+                n_idx = sum(1 for x in st['statements'] if 'item_name_x' in x)
+                if ('shop', 'sql_only') in [tuple(r[:2]) for r in new] and n_idx != 1:
+                    report.fail(dict(fp, **{'class': 'recorded-evolution-sql-not-run-exactly-once', 'times': n_idx}), detail)
+            else:
+                if new or any(x for x in st['statements']):
+                    report.fail(dict(fp, **{'class': 'further-run-not-a-noop'}), detail)
+    return len(results)
 
 
 def _c08_interleaved(report, tier, nontrivial):
